@@ -504,7 +504,15 @@ func (env *Env) trCall(x ECall) TV {
 		return TV{T: fmt.Sprintf("(mk-iface %s %s)", eng.typeIDTerm(el), payload), S: "Iface"}
 	case "as":
 		// as("pkg.Type", x): x viewed as a value of the named Go type (same representation)
-		t := eng.lookupNamed(args[0].(EStr).Val)
+		tn := args[0].(EStr).Val
+		var t types.Type
+		if strings.HasPrefix(tn, "*") {
+			if el := eng.lookupNamed(tn[1:]); el != nil {
+				t = types.NewPointer(el)
+			}
+		} else {
+			t = eng.lookupNamed(tn)
+		}
 		if t == nil {
 			env.fail("as: unknown type %s", args[0])
 		}
